@@ -24,6 +24,11 @@ def run_tc(ctx, cls):
     ctx.tlc_mc("MC_TransferControl", "MC_TransferControl_producer.cfg" if q else "MC_TransferControl_producer_thorough.cfg",
                must_cover=["ProdCredit", "ProdPush", "ProdSent", "AAck", "AResume"], timeout=1500)
     ctx.coverage["checker_cmd"] = "tlc -workers 8 -coverage 1 -config spec/MC_TransferControl_*.cfg spec/MC_TransferControl.tla"
+    if cls == "credit":
+        # unbounded: the integer fragment CreditInd.tla (which the producer configurations above are checked to refine,
+        # property RefinesCredit) keeps acked <= sent and in_flight <= max(window, last chunk) for every window, offset and length
+        ctx.apalache_inductive("CreditInd", "IndInit", "IndInv")
+        ctx.assume("CreditInd.tla works over unbounded integers: the u64 saturation corner is covered by the recorded 64-bit traces, not by the inductive proof")
 
     # 2. spec -> impl graph walk
     graph = ctx.tlc_generate("MC_TransferControl", "MC_TransferControl_graph_quick.cfg" if q else "MC_TransferControl_graph_thorough.cfg",
